@@ -21,6 +21,7 @@ type BlockCase struct {
 	Cls   string `json:"cls"`
 	Done  bool   `json:"done"`
 	Also  string `json:"also,omitempty"` // a second call of this kind blocked in waitAck at the same time
+	Pre   string `json:"pre,omitempty"`  // benign broker traffic before the call: pingresp | foreignAcks | inbound
 }
 
 // BlockResult is what happened.
@@ -32,6 +33,7 @@ type BlockResult struct {
 	Cls        string `json:"cls"`
 	Done       bool   `json:"done"`
 	Also       string `json:"also"`
+	Pre        string `json:"pre"`
 	Steered    bool   `json:"steered"`
 	Returned   bool   `json:"returned"`
 	Res        string `json:"res"`
@@ -92,7 +94,7 @@ type callRet struct {
 }
 
 func runBlock(sc *BlockCase) *BlockResult {
-	res := &BlockResult{ID: sc.ID, K: sc.K, L: sc.L, Cause: sc.Cause, Cls: sc.Cls, Done: sc.Done, Also: sc.Also}
+	res := &BlockResult{ID: sc.ID, K: sc.K, L: sc.L, Cause: sc.Cause, Cls: sc.Cls, Done: sc.Done, Also: sc.Also, Pre: sc.Pre}
 	base := libGoroutines()
 	if strings.HasPrefix(sc.K, "r") {
 		runBlockReconn(sc, res)
@@ -242,6 +244,32 @@ func runBlockBase(sc *BlockCase, res *BlockResult) {
 				return
 			}
 		}
+		if sc.Pre != "" {
+			var pkts [][]byte
+			switch sc.Pre {
+			case "pingresp":
+				pkts = [][]byte{netsim.PingResp(), netsim.PingResp()}
+			case "foreignAcks":
+				pkts = [][]byte{netsim.Ack(0x40, 901), netsim.Ack(0x50, 902), netsim.Ack(0x70, 903), netsim.SubAck(904, []byte{0}), netsim.Ack(0xB0, 905)}
+			case "inbound":
+				pkts = [][]byte{netsim.Publish("in", []byte("x"), 0, 0, false, false), netsim.Publish("in", []byte("y"), 1, 906, false, false)}
+			}
+			reads := func() int {
+				n := 0
+				for _, e := range rec.Snapshot() {
+					if e["e"] == "Read" {
+						n++
+					}
+				}
+				return n
+			}
+			before := reads()
+			for _, b := range pkts {
+				w.Send(t, b)
+			}
+			waitFor(func() bool { return reads() >= before+len(pkts) }, time.Second)
+			time.Sleep(2 * time.Millisecond)
+		}
 		if sc.L == "fromHandler" {
 			ret = fromHandler
 			res.Steered = true
@@ -254,6 +282,11 @@ func runBlockBase(sc *BlockCase, res *BlockResult) {
 				res.Steered = true
 			} else {
 				res.Steered = waitFor(func() bool { return countWrites(rec, reqPkt[sc.K]) >= 1 }, 2*time.Second)
+				if !res.Steered && sc.Pre != "" {
+					// the call is blocked before it even wrote its request: the case still demands that it returns
+					res.Steered = true
+					res.Note = "request not written"
+				}
 			}
 		}
 		if sc.Also != "" {
